@@ -555,6 +555,70 @@ func init() {
 					stat("C14", "shadowed-pairs")
 				}
 			}
+			// nil and empty containers are the same content wherever the Go value has both: flip every one of them
+			// (a step built through the API, or edited after parsing) and the payload must stay the same
+			if st, _, err := stepFromDoc(c.doc); err == nil {
+				f := *st
+				if len(f.Env) == 0 {
+					if f.Env == nil {
+						f.Env = map[string]string{}
+					} else {
+						f.Env = nil
+					}
+				}
+				if len(f.Plugins) == 0 {
+					if f.Plugins == nil {
+						f.Plugins = pipeline.Plugins{}
+					} else {
+						f.Plugins = nil
+					}
+				} else {
+					pl := make(pipeline.Plugins, len(f.Plugins))
+					for pi, p0 := range f.Plugins {
+						cp := *p0
+						if cp.Config == nil {
+							cp.Config = map[string]any{}
+						}
+						pl[pi] = &cp
+					}
+					f.Plugins = pl
+				}
+				if f.Matrix == nil {
+					f.Matrix = &pipeline.Matrix{Setup: pipeline.MatrixSetup{}, Adjustments: pipeline.MatrixAdjustments{}, RemainingFields: map[string]any{}}
+				} else {
+					m := *f.Matrix
+					if len(m.RemainingFields) == 0 {
+						if m.RemainingFields == nil {
+							m.RemainingFields = map[string]any{}
+						} else {
+							m.RemainingFields = nil
+						}
+					}
+					if len(m.Adjustments) == 0 {
+						if m.Adjustments == nil {
+							m.Adjustments = pipeline.MatrixAdjustments{}
+						} else {
+							m.Adjustments = nil
+						}
+					}
+					if len(m.Setup) == 0 {
+						if m.Setup == nil {
+							m.Setup = pipeline.MatrixSetup{}
+						} else {
+							m.Setup = nil
+						}
+					}
+					f.Matrix = &m
+				}
+				_, pOrig, e1 := signPayload(key, st, c.repo, c.penv)
+				_, pFlip, e2 := signPayload(key, &f, c.repo, c.penv)
+				if e1 == nil && e2 == nil {
+					if !bytes.Equal(pOrig, pFlip) {
+						oracleFail("C14", "nil-empty-differs", cs, fmt.Sprintf("flipping nil and empty containers of the step changes the payload:\n%s\n%s", pOrig, pFlip))
+					}
+					stat("C14", "nil-empty-flips")
+				}
+			}
 			// a different algorithm name gives a different payload
 			other := keys[(i+1)%len(keys)]
 			if other.alg != key.alg {
